@@ -4,7 +4,7 @@
    driver only reads and prints numbers. *)
 From Coq Require Import FMapPositive.
 From Lace Require Import Word Machine Isa Vm RunProofs.
-From Lace Require Asm Cli Watch Feat.
+From Lace Require Asm Cli Watch Feat CliFile.
 
 (* ------------------------------------------------------------------ *)
 (** * Helpers *)
@@ -201,6 +201,13 @@ Definition run_obj (args : list N) : list (list N) :=
   | Asm.Err _ _ _ => [[1; 0]]
   | Asm.Bad _ => [[101; 0]]
   end.
+
+(** OBJB = feat nbytes bytes...: the source as the BYTES of its file (CliFile.v); result as OBJ *)
+Definition run_objb (args : list N) : list (list N) :=
+  let feat := negb (hdN args =? 0) in
+  let '(bytes, _) := take (N.to_nat (hdN (tlN args))) (tlN (tlN args)) in
+  let '(e, bs) := CliFile.object_of_file feat bytes in
+  [e :: N.of_nat (length bs) :: bs].
 
 (** WATCH = feat nversions, then for each version: nchars and its chars; result: one verdict per version
     (`lace watch`: Watch.watch on the versions in order) *)
